@@ -362,6 +362,17 @@ LIB_META.update({
             "thorough tier) x 15 expression contexts x short/long operands x 4 width classes (fits / hangs at top level / hangs at "
             "every level / 40). Oracle: normal form N (operator tree shape, truncation markers in multi-value positions) and re-parse. "
             "The H1 trace counts evaluations of the parenthesis rule per path (paren.flat / paren.hang x context x removed?)."),
+    "C09": ("exploration", "Corpus files x statement-aligned / mid-token / nested / open-ended / empty / out-of-bounds ranges (pinned), "
+            "construct templates x every statement pair x 2 widths x 2 collapse modes (pinned), generated hostile programs x random "
+            "statement-aligned and off-by-one ranges (seeded). Oracle: input with the in-range statements cut out must reappear as "
+            "prefix / ordered segments / suffix of the range output, and each replaced region must equal the same statements in the "
+            "whole-file output (blank lines at region ends ignored). Non-trivial as for C01."),
+    "C08": ("exploration", "Pinned: 14 statement kinds x {single, region, open region} directive x nesting depth 0-2 x 5 tails (none, `;`, ` ;`, "
+            "`; -- c`, ` -- c`) x 4 following statements (plain, starts with `(`, none, return) x first/not first in block x widths x collapse "
+            "modes, ignored table fields, the repository's ignore inputs; seeded: generated hostile programs with 1-3 directives inserted "
+            "before statements at any depth. Oracles: (1) the source slice of each model-ignored statement incl. its `;` occurs in the "
+            "output in order; (2) every statement unrelated to an ignored one has the text it gets with the directives defused. "
+            "Non-trivial as for C01; counters give ignored statements / comparisons made."),
 })
 
 COMMON_ASSUMPTIONS = [
